@@ -1,16 +1,28 @@
 #!/bin/bash
 # runseeded.sh <seeded-dir> [check ids...]: applies seeded/<dir>/patch.diff to /repo, runs the repo baseline and
 # the given checks (default: the property named in meta.json), restores /repo. Prints one line per check.
+# With SEEDED_SCRATCH=1 the change is applied to a scratch worktree of /repo's HEAD instead (VERIF_REPO points the
+# checks at it), so that /repo itself stays untouched while something else is reading it.
 set -u
 D="$(realpath "$1")"; shift
 cd /verif
 IDS="$@"
 [ -z "$IDS" ] && IDS=$(python3 -c "import json;print(json.load(open('$D/meta.json'))['property'])")
-if ! git -C /repo diff --quiet; then echo "repo has local changes; abort"; exit 2; fi
-git -C /repo apply "$D/patch.diff" || { echo "patch does not apply"; exit 2; }
-trap 'git -C /repo checkout -- . >/dev/null 2>&1' EXIT
 export GOFLAGS=-mod=mod GOPROXY=off GOSUMDB=off GOTOOLCHAIN=local
-( cd /repo && go build ./... && go test -vet=off -count=1 ./server/ ./protocol/ >/tmp/seeded_base.log 2>&1 ) && echo "baseline: pass" || echo "baseline: FAIL (see /tmp/seeded_base.log)"
+if [ "${SEEDED_SCRATCH:-0}" = "1" ]; then
+  R=/tmp/wt/mut_$$
+  mkdir -p /tmp/wt
+  git -C /repo worktree add -q --detach "$R" HEAD || exit 2
+  trap 'git -C /repo worktree remove --force "$R" >/dev/null 2>&1' EXIT
+  git -C "$R" apply "$D/patch.diff" || { echo "patch does not apply"; exit 2; }
+  export VERIF_REPO="$R"
+else
+  R=/repo
+  if ! git -C /repo diff --quiet; then echo "repo has local changes; abort"; exit 2; fi
+  git -C /repo apply "$D/patch.diff" || { echo "patch does not apply"; exit 2; }
+  trap 'git -C /repo checkout -- . >/dev/null 2>&1' EXIT
+fi
+( cd "$R" && go build ./... && go test -vet=off -count=1 ./server/ ./protocol/ >/tmp/seeded_base.log 2>&1 ) && echo "baseline: pass" || echo "baseline: FAIL (see /tmp/seeded_base.log)"
 for id in $IDS; do
   s=$(date +%s)
   ./run.sh $id ${TIER:-quick} > /tmp/seeded_$id.log 2>&1; rc=$?
